@@ -38,6 +38,7 @@ func runC07(c *Ctx) {
 		c.R.Floor("C07.errors", cfg.Name, n, 190)
 		ruleReadFull(c, p, "C07.readfull")
 		ruleEnsureExact(c, p, "C07.ensure")
+		ruleFieldBeforeUse(c, p, "C07.field-before-use")
 		ruleReaderSource(c, p, "C07.source")
 		ruleReadSizes(c, p, "C07.sizes")
 	}
@@ -200,4 +201,112 @@ func ruleReadSizes(c *Ctx, p *core.Program, rule string) {
 	if n > 0 {
 		c.R.Ok(rule, "decoders", cfg, "", sprintf("%d sized reads examined", n)).Trivial = true
 	}
+}
+
+// ---- C07.field-before-use: a wire-derived selector is stored before the method that dispatches on it runs
+func ruleFieldBeforeUse(c *Ctx, p *core.Program, rule string) {
+	c.R.Rule(rule, "in a column decoder that stores a value read from the wire into a field of the receiver (the key width of LowCardinality) and calls a method of the same receiver that reads that field (Keys() selects the keys column by it), the call is not reachable from the entry without passing the store: a selection made before the store uses the width of the previous block (or the zero value), reads rows*1 instead of rows*2 key bytes and accepts a block cut by the difference")
+	cfg := p.Cfg.Name
+	n := 0
+	for _, ct := range columnTypes(p) {
+		dec := methodOf(p, ct, "DecodeColumn")
+		if dec == nil || dec.Blocks == nil || len(dec.Params) == 0 {
+			continue
+		}
+		recv := dec.Params[0]
+		// wire-derived stores to receiver fields
+		type fst struct {
+			name string
+			in   ssa.Instruction
+		}
+		var stores []fst
+		for _, b := range dec.Blocks {
+			for _, in := range b.Instrs {
+				st, ok := in.(*ssa.Store)
+				if !ok {
+					continue
+				}
+				fa, ok := st.Addr.(*ssa.FieldAddr)
+				if !ok || fa.X != ssa.Value(recv) {
+					continue
+				}
+				wire := func(v ssa.Value) bool {
+					if isWireRead(v) {
+						return true
+					}
+					e, ok := v.(*ssa.Extract)
+					return ok && isWireRead(e.Tuple)
+				}
+				// (the value may come back from a parsing helper that read it)
+				if core.DependsOn(st.Val, wire, true) || core.DependsOnResults(st.Val, wire) {
+					stores = append(stores, fst{fieldNameOnly(fa.X.Type(), fa.Field), in})
+				}
+			}
+		}
+		if len(stores) == 0 {
+			continue
+		}
+		for _, call := range core.Calls(dec) {
+			m := core.StaticFn(call)
+			if m == nil || m.Blocks == nil || len(call.Common().Args) == 0 || m == dec {
+				continue
+			}
+			// same receiver object (pointer or its dereference)
+			a0 := call.Common().Args[0]
+			if a0 != ssa.Value(recv) {
+				if u, ok := a0.(*ssa.UnOp); !ok || u.X != ssa.Value(recv) {
+					continue
+				}
+			}
+			// fields the method reads from its receiver
+			reads := map[string]bool{}
+			for _, mb := range m.Blocks {
+				for _, mi := range mb.Instrs {
+					switch x := mi.(type) {
+					case *ssa.FieldAddr:
+						if len(m.Params) > 0 && x.X == ssa.Value(m.Params[0]) {
+							reads[fieldNameOnly(x.X.Type(), x.Field)] = true
+						}
+					case *ssa.Field:
+						if len(m.Params) > 0 && x.X == ssa.Value(m.Params[0]) {
+							reads[fieldNameOnly(x.X.Type(), x.Field)] = true
+						}
+						// value receiver spilled into a local copy
+						if u, ok := x.X.(*ssa.UnOp); ok {
+							if al, ok := u.X.(*ssa.Alloc); ok {
+								_ = al
+								reads[fieldNameOnly(x.X.Type(), x.Field)] = true
+							}
+						}
+					}
+				}
+			}
+			// value receivers: FieldAddr on the spill alloc
+			for _, mb := range m.Blocks {
+				for _, mi := range mb.Instrs {
+					if fa, ok := mi.(*ssa.FieldAddr); ok {
+						if al, ok := fa.X.(*ssa.Alloc); ok && core.NamedOf(al.Type()) == ct {
+							reads[fieldNameOnly(fa.X.Type(), fa.Field)] = true
+						}
+					}
+				}
+			}
+			for _, s := range stores {
+				if !reads[s.name] {
+					continue
+				}
+				n++
+				key := sprintf("%s/%s-before-%s", core.FuncName(dec), s.name, m.Name())
+				st := s.in
+				w := core.ReachAvoiding(core.Entry(dec), func(x ssa.Instruction) bool { return x == call.(ssa.Instruction) }, func(x ssa.Instruction) bool { return x == st }, nil)
+				if len(w) > 0 {
+					c.R.Bad(rule, key, cfg, p.Pos(call.Pos()), m.Name()+"() reads "+ct.Obj().Name()+"."+s.name+" but can be called before the decoder has stored the value it read from the wire into that field: the previous block's (or the zero) value selects what is decoded")
+				} else {
+					c.R.Ok(rule, key, cfg, p.Pos(call.Pos()), "the field is stored before the method that reads it is called")
+				}
+			}
+		}
+	}
+	c.R.Count("field-then-method pairs in decoders["+cfg+"]", n)
+	c.R.Floor(rule, cfg, n, 1)
 }
